@@ -187,6 +187,10 @@ def _apply_fpy_decorator(
     # get defining environment
     cvars = inspect.getclosurevars(func)
     cfree_vars = cvars.nonlocals.keys() | cvars.globals.keys() | cvars.builtins.keys()
+    # `getclosurevars` resolves every entry of `co_names`, attribute names
+    # included (`m.y` makes a global `y` look referenced); a name the
+    # function binds itself is a Python local and never a free variable
+    cfree_vars = cfree_vars - set(func.__code__.co_varnames)
     env = _function_env(func)
 
     # set of free variables as `NamedId`
